@@ -227,7 +227,14 @@ def h_prefix(E, shape):
     mode = shape.get("mode", "iterations")
     if mode == "iterations":
         k = E.int("k", 0, K)
-        B = solve_once(env, "b", dict(iteration_limit=k, _record_callbacks=True), script=A.trials)
+        if shape.get("share_params"):
+            # the way a user limits a run: set the limit on the Params object already in use and build
+            # a new Solver with it
+            A.params.iteration_limit = k
+            sB = boot.mod("solver").Solver(env.user, A.params)
+            B = solve_once(env, "b", dict(_record_callbacks=True), script=A.trials, solver=sB)
+        else:
+            B = solve_once(env, "b", dict(iteration_limit=k, _record_callbacks=True), script=A.trials)
     else:
         tl = E.real("time_limit", lo=0, lo_strict=True)
         B = solve_once(env, "b", dict(iteration_limit=K, time_limit=tl, _record_callbacks=True), script=A.trials)
